@@ -73,14 +73,14 @@ func c01r11(c *Ctx) {
 				if w, has := want[k]; has {
 					rhs := prog.Unparen(argOfConv(as.Rhs[0]))
 					rk, _ := prog.FieldOf(info, rhs)
-					if rk == w && prog.RootObj(info, rhs) == item {
+					if rk == w && prog.RootObj(info, rhs) == item && f.Parent(as) == ast.Node(f.Decl.Body) {
 						got[k] = true
 					}
 				}
 			}
 			return true
 		})
-		c.check(len(got) == 3, R, f.Key+": payload.{Flag, Ver, CArray} = item.{Flag, Exptime, CArray}", f.Pos(), "client flags, revision and bytes handed to the store", "the payload handed to the store does not carry the client's flags, explicit revision and bytes")
+		c.check(len(got) == 3, R, f.Key+": payload.{Flag, Ver, CArray} = item.{Flag, Exptime, CArray}", f.Pos(), "client flags, revision and bytes handed to the store, unconditionally", "the payload handed to the store does not (always) carry the client's flags, explicit revision and bytes")
 		okSet := false
 		for _, s := range f.CallsTo("store.HStore.Set") {
 			if len(s.Expr.Args) == 2 && prepared(f, s.Expr.Args[0], s.Expr, f.Param(0), false) {
@@ -568,9 +568,17 @@ func c10r7(c *Ctx) {
 		if ok && sample != nil {
 			// whole-body compression under len(body) > len(try)
 			g := false
+			var gsrc ast.Node
 			for _, a := range f.GuardsAt(whole) {
 				if prog.AtomCmp(a, token.GTR, func(e ast.Expr) bool { return lenOf(info, e, bodyObj) }, func(e ast.Expr) bool { return lenOf(info, e, tryObj) }) {
 					g = true
+					gsrc = a.Src
+				}
+			}
+			// the whole-body compression must not depend on anything else decided by that test
+			for _, a := range f.GuardsAt(whole) {
+				if g && a.Src == gsrc && !prog.AtomCmp(a, token.GTR, func(e ast.Expr) bool { return lenOf(info, e, bodyObj) }, func(e ast.Expr) bool { return lenOf(info, e, tryObj) }) {
+					g = false
 				}
 			}
 			// and the guard statement lies on every path from the sample to the swap
